@@ -3,7 +3,7 @@ from vf import build, framework as fw
 
 RULE = ("all programs up to length L over a 16-letter alphabet (add, add-dup-key, take/remove, remove, peek/find, clear, "
         "iterator walks removing first/last/middle/all, set at last, remove-twice at last, list insert at first/last, "
-        "insert+remove everywhere, plain walk) x {queue,stack,list,list+comparator} x {destructor, none} are enumerated "
+        "insert+remove everywhere, plain walk) x {queue,stack,list,list+comparator,list+never-equal comparator} x {destructor, none} are enumerated "
         "(L=5 quick, 6 thorough); then random programs with random per-position iterator actions. After every op the "
         "container is dumped and compared with an array model; destructor calls are compared by element identity. "
         "distinct_nontrivial counts random programs containing an iterator walk (hash of op/length sequence) plus "
@@ -20,16 +20,16 @@ def run(tier):
     args = []
     if tier == "quick":
         L, nrand, maxops = 5, 1500, 300
-        for sl in range(8):
+        for sl in range(10):
             args.append([s * 7919 + sl, L, nrand, maxops, sl])
     else:
         L, nrand, maxops = 6, 6000, 1500
-        for sl in range(8):
+        for sl in range(10):
             for fl in range(16):
                 args.append([s * 7919 + sl * 16 + fl, L, nrand, maxops, sl, fl])
     fw.run_harness_parallel(res, exe, args, timeout=3600, key_prefix="C12")
     res.evaluations = res.counters.get("exhaustive_programs", 0) + res.counters.get("random_programs", 0)
-    fw.finish(res, RULE, ASSUME, extra_cov={"exhaustive_subspace": "all programs of length <= %d over the 16-letter alphabet, 8 container flavours" % L})
+    fw.finish(res, RULE, ASSUME, extra_cov={"exhaustive_subspace": "all programs of length <= %d over the 16-letter alphabet, 10 container flavours" % L})
 
 
 def replay(path):
